@@ -4,12 +4,18 @@ import JunoModel.C16.ModelMig
 /-! Line-protocol driver for the C16 model (`lake build c16drv`).
 
 State-changing requests (answer = `Out` of the model step):
-  cfg <retained> <l2PerPrune> <minAge 0|1> <legacy 0|1> <fixed 0|1> <migSkipsMissing 0|1> <migZeroNoop 0|1>   reset to the empty node with this configuration
+  cfg <retained> <l2PerPrune> <minAge 0|1> <legacy 0|1> <fixed 0|1> <migSkipsMissing 0|1> <migZeroNoop 0|1> <l2Clamps 0|1>
+                     reset to the empty node with this configuration (block timestamps all 0)
+  ts <t0> <t1> ...   the header timestamps of blocks 0, 1, ... (configuration; the node state is untouched)
+  clock <t>          the wall clock minus the minimum age is now t (it only advances: `advance (t - cutoff)`)
   bulk <k>           the node after k stores on the empty database, in closed form
   agg <w>            is the aggregated bloom filter of window w persisted (1/0)
-  store | revert | writel1 <n> | evl1 <n> | evl2 <n> <within 0|1> | flush <k> | finish | fail | crash <seed 0|1> | sample <v>
+  store | revert | writel1 <n> | evl1 <n> | evl2 <n> | flush <k> | finish | fail | crash <seed 0|1> | tick | migrate <unchangedSlot 0|1>
 Observations:
   q <query> <n>      answer of the node about block n: ok | notfound | pruned | stale <m>
+  held <b>           a historical reader opened earlier for block b, read now
+  lu <num|hash|head> <w> <n>   ContractStorageLastUpdatedBlock of a slot last written at block w: ok | lost | notfound
+  migfloor           the migration's own min-age floor (FindOldestBlockAtOrAfter(0, pivot, cutoff)); - = none
   head               head state
   info               height l1 floorState pending sampled job oldest
 Pure functions (decimal in, decimal out):
@@ -40,6 +46,7 @@ def showAns : Ans → String
   | .notfound => "notfound"
   | .pruned => "pruned"
   | .stale m => s!"stale {m}"
+  | .lost => "lost"
 
 def q? : String → Option Q
   | "headerByNumber" => some .headerByNumber
@@ -89,12 +96,31 @@ def keyBytes (scratch : Bool) (kind addr slot blk : String) : String :=
 
 def stepLine (d : DSt) (line : String) : DSt × String :=
   match words line with
-  | ["cfg", r, l, m, lg, fx, ms, mz] =>
-    match u64? r, u64? l, bool? m, bool? lg, bool? fx, bool? ms, bool? mz with
-    | some r, some l, some m, some lg, some fx, some ms, some mz =>
+  | ["cfg", r, l, m, lg, fx, ms, mz, cl] =>
+    match u64? r, u64? l, bool? m, bool? lg, bool? fx, bool? ms, bool? mz, bool? cl with
+    | some r, some l, some m, some lg, some fx, some ms, some mz, some cl =>
       ({ cfg := { retained := r, l2PerPrune := l, minAge := m, legacy := lg, fixed := fx,
-                  migSkipsMissing := ms, migZeroNoop := mz }, st := St.init }, "ok")
-    | _, _, _, _, _, _, _ => (d, "bad-op")
+                  migSkipsMissing := ms, migZeroNoop := mz, l2Clamps := cl }, st := St.init }, "ok")
+    | _, _, _, _, _, _, _, _ => (d, "bad-op")
+  | "ts" :: tss =>
+    match tss.mapM nat? with
+    | some l =>
+      let arr := l.toArray
+      ({ d with cfg := { d.cfg with ts := fun n => arr.getD n 0 } }, "ok")
+    | none => (d, "bad-op")
+  | ["clock", t] =>
+    match nat? t with
+    | some t => if d.st.cutoff ≤ t then doOp d (.advance (t - d.st.cutoff)) else (d, "bad-op")
+    | none => (d, "bad-op")
+  | ["tick"] => doOp d .tick
+  | ["held", b] =>
+    match nat? b with
+    | some b => (d, showAns (heldRead d.cfg d.st b))
+    | none => (d, "bad-op")
+  | ["migfloor"] =>
+    match d.st.db.height, d.st.db.l1 with
+    | some h, some l1 => (d, showOptNat ((migMinAgeFloor d.cfg h l1 d.st.cutoff).map (·.toNat)))
+    | _, _ => (d, "-")
   | ["bulk", k] =>
     -- the node after k stores on the empty database (Props.bulk_is_k_stores), in closed form
     match nat? k with
@@ -110,26 +136,26 @@ def stepLine (d : DSt) (line : String) : DSt × String :=
   | ["revert"] => doOp d .revert
   | ["writel1", n] => match u64? n with | some n => doOp d (.writeL1 n) | none => (d, "bad-op")
   | ["evl1", n] => match u64? n with | some n => doOp d (.evL1 n) | none => (d, "bad-op")
-  | ["evl2", n, w] =>
-    match u64? n, bool? w with
-    | some n, some w => doOp d (.evL2 n w)
-    | _, _ => (d, "bad-op")
+  | ["evl2", n] => match u64? n with | some n => doOp d (.evL2 n) | none => (d, "bad-op")
   | ["flush", k] => match nat? k with | some k => doOp d (.flush k) | none => (d, "bad-op")
   | ["finish"] => doOp d .finish
   | ["fail"] => doOp d .fail
   | ["crash", s] => match bool? s with | some s => doOp d (.crash s) | none => (d, "bad-op")
-  | ["migrate", mf, u] =>
-    match bool? u with
-    | none => (d, "bad-op")
-    | some u =>
-      if mf == "-" then doOp d (.migrate none u)
-      else match u64? mf with | some f => doOp d (.migrate (some f) u) | none => (d, "bad-op")
-  | ["sample", v] => match u64? v with | some v => doOp d (.sample v) | none => (d, "bad-op")
+  | ["migrate", u] => match bool? u with | some u => doOp d (.migrate u) | none => (d, "bad-op")
   | ["q", q, n] =>
     match q? q, nat? n with
     | some q, some n => (d, showAns (answer d.cfg d.st q n))
     | _, _ => (d, "bad-op")
   | ["head"] => (d, showAns (headState d.cfg d.st))
+  | ["lu", how, w, n] =>
+    -- ContractStorageLastUpdatedBlock of a slot last written at block w, read through num|hash|head at block n
+    match nat? w, nat? n with
+    | some w, some n =>
+      if how == "num" then (d, showAns (lastUpdAtNumber d.cfg d.st w n))
+      else if how == "hash" then (d, showAns (lastUpdAtHash d.cfg d.st w n))
+      else if how == "head" then (d, showAns (lastUpdAtHead d.cfg d.st w))
+      else (d, "bad-op")
+    | _, _ => (d, "bad-op")
   | ["info"] =>
     let s := d.st
     (d, s!"{showOptNat s.db.height} {showOptNat (s.db.l1.map (·.toNat))} {s.mem.floorState.toNat} {s.mem.pending.toNat} {s.mem.sampled.toNat} {showJob s.job} {showOptNat (oldest s.db)}")
